@@ -308,7 +308,14 @@ impl<'a> StreamState<'a> {
         }
         self.slot.write(idx, case);
         self.started.store(self.epoch.elapsed().as_millis() as u64 + 1, Ordering::SeqCst);
+        let t_case = Instant::now();
         let (verdict, out) = run_case(self.prop, case, &self.ctx);
+        // developer aid: QV_SLOW_MS=<n> lists the cases that take longer than n milliseconds
+        if let Some(limit) = std::env::var("QV_SLOW_MS").ok().and_then(|v| v.parse::<u128>().ok()) {
+            if t_case.elapsed().as_millis() > limit {
+                eprintln!("[slow] {} ms: {}", t_case.elapsed().as_millis(), render_case(self.prop, case, &self.ctx_render));
+            }
+        }
         self.started.store(0, Ordering::SeqCst);
         self.res.last_index = idx;
         self.res.evaluations += 1;
@@ -861,6 +868,19 @@ pub fn check(prop: &dyn Property, all: &dyn Fn(&str) -> Option<&'static dyn Prop
                                     } else {
                                         merged.truncated_streams += 1;
                                     }
+                                } else if violation.is_none() && how == "hang" && {
+                                    // A watchdog expiry inside a stream may be machine load. Re-run the case
+                                    // alone with four times the budget: if it comes back at all, the
+                                    // expiry says nothing about the property (exit 2), whatever the verdict
+                                    // of that re-run — a real failure of the case is found again by the
+                                    // stream that restarts behind it.
+                                    let o = spawn_one(id, &case, &run_dir, &active, 4 * prop.watchdog_s() + 10);
+                                    !matches!(o.failure, Some(ref f) if f.sig == "hang")
+                                } {
+                                    inconclusive = Some(format!(
+                                        "stream {stream}: watchdog expired on case #{index}, but the case finishes when run alone (machine load?): {}",
+                                        short_case(&case)
+                                    ));
                                 } else if violation.is_none() {
                                     // minimise through children, same signature only
                                     let sig = fl.sig.clone();
